@@ -93,6 +93,13 @@ __attribute__((no_sanitize("thread"))) void sk_violate(sk_result* r, const char*
 		return; /* first violation wins */
 	r->violated = 1;
 	snprintf(r->cls, sizeof(r->cls), "%s", cls);
+	{
+		/* the class is one token of the result line */
+		char* q;
+		for (q = r->cls; *q; ++q)
+			if (*q == ' ' || *q == '\t' || *q == '\n')
+				*q = '_';
+	}
 	va_start(ap, fmt);
 	vsnprintf(r->detail, sizeof(r->detail), fmt, ap);
 	va_end(ap);
